@@ -32,12 +32,57 @@ class Variant:
     needs_types: bool = False
 
 
+SEEDED = os.path.join(os.path.dirname(os.path.dirname(os.path.abspath(__file__))), 'seeded')
+
+
 def _load_variants(prop: str) -> list[Variant]:
     try:
         mod = importlib.import_module(f'xsa.mutants.{prop.lower()}')
+        out = list(mod.VARIANTS)
     except ModuleNotFoundError:
-        return []
-    return list(mod.VARIANTS)
+        out = []
+    # changes seeded by independent sub-agents (confirmed by hand, see seeded/<name>/meta.json): those a rule detects must keep firing
+    if os.path.isdir(SEEDED):
+        import json
+        for name in sorted(os.listdir(SEEDED)):
+            mp = os.path.join(SEEDED, name, 'meta.json')
+            if not os.path.exists(mp):
+                continue
+            meta = json.load(open(mp))
+            if meta.get('property') != prop or str(meta.get('detected_now_by', '')).startswith('not detected'):
+                continue
+            rule = str(meta['detected_now_by']).split()[0].strip(',')
+            out.append(Variant(f'seeded:{name}', prop, os.path.join(SEEDED, name, 'patch.diff'), '', '', rule.split('.')[0] if '.' not in rule else rule,
+                               note='seeded patch'))
+    return out
+
+
+def _apply_patch(v: Variant, repo: str) -> Optional[dict[str, str]]:
+    """overlay produced by a unified diff (applied with `git apply` on a scratch copy of the touched files)."""
+    import re
+    import shutil
+    import subprocess
+    import tempfile
+    diff = open(v.file).read()
+    files = re.findall(r'^\+\+\+ b/(\S+)', diff, flags=re.M)
+    tmp = tempfile.mkdtemp(prefix='xsa-seed-')
+    try:
+        for f in files:
+            os.makedirs(os.path.dirname(os.path.join(tmp, f)), exist_ok=True)
+            try:
+                shutil.copy(os.path.join(repo, f), os.path.join(tmp, f))
+            except OSError:
+                return None
+        r = subprocess.run(['git', 'apply', '--unsafe-paths', '-p1', v.file], cwd=tmp, capture_output=True, text=True)
+        if r.returncode != 0:
+            return None
+        out = {}
+        for f in files:
+            with open(os.path.join(tmp, f), 'rb') as fp:
+                out[f] = fp.read().decode('utf-8-sig')
+        return out
+    finally:
+        shutil.rmtree(tmp, ignore_errors=True)
 
 
 def apply_variant(v: Variant, repo: str) -> Optional[dict[str, str]]:
@@ -68,7 +113,7 @@ def _run_one(args) -> tuple[str, str, str]:
     from .report import collect
     v = next(x for x in _load_variants(prop) if x.name == name)
     try:
-        overlay = apply_variant(v, repo)
+        overlay = _apply_patch(v, repo) if v.file.endswith('patch.diff') else apply_variant(v, repo)
     except AnalysisError as e:
         return name, 'FAIL', str(e)
     if overlay is None:
